@@ -1,4 +1,4 @@
-import MosnVerif.Lemmas.FilterMachine
+import MosnVerif.Lemmas.FilterReply
 /-!
 # C14 — stream filters run in order, and a denied request is never forwarded (property theorems only)
 
@@ -43,5 +43,104 @@ theorem deny_not_forwarded (c : Cfg) (n : Nat) (p : RPhase) (st : Nat) (invs : L
   subst heq
   have := hno _ he
   simp [isUp] at this
+
+/-- **once (sender side)**: at every point of the run the response side of the trace (sender passes and downstream
+sender calls) is empty, or starts with ONE sender pass — from cursor 0, making exactly the invocations `sendRun`: filters
+0,1,2,… in order, each once, up to and including the first that does not continue — followed by no further sender pass:
+the sender filters run at most once per stream (= per response) and before anything is written downstream. -/
+theorem once_send (c : Cfg) (n : Nat) :
+    backPart (run c n init).trace = [] ∨
+    ∃ rest, backPart (run c n init).trace = .spass 0 (sendRun c.send 0) :: rest ∧ ∀ e ∈ rest, isSpass e = false :=
+  Ginv_SpOK c _ (run_Ginv c n init (init_Ginv c))
+
+/-- … and `sendRun` invokes every sender filter exactly once, in configuration order, when they all continue -/
+theorem sendRun_all (fs : List SFilter) (i : Nat) (h : ∀ f ∈ fs, continues (f.statusAt 0) = true) :
+    (sendRun fs i).map (·.1) = List.range' i fs.length := by
+  induction fs generalizing i with
+  | nil => rfl
+  | cons f r ih =>
+    simp only [sendRun, h f (by simp), if_true, List.map_cons, List.length_cons, List.range'_succ]
+    rw [ih (i + 1) (fun g hg => h g (by simp [hg]))]
+
+/-- **the worker always returns**: the model run is finished after `fuel` iterations (the task of `OnReceive` returned) -/
+theorem worker_returns (c : Cfg) : (final c).halted = true := final_halted c
+
+/-- **single_reply** (partial: the hypothesis `exhausted = false` excludes the streams the worker abandons after 10 calls
+of `receive` — see the finding in KNOWN_FINDINGS.txt and the witness below; full statement: without that hypothesis).
+When a receiver filter answered the request (hijack / direct response), no filter returned the termination status and
+the request is not one-way, then the finished stream's response side is exactly: one full run of the sender filters,
+then the downstream sender calls of THE answer — the headers with the status code and, iff the answer has a body, one
+data call — where the answer is the fold of the filters' handler calls in invocation order (`replyOf`: the last
+hijack / direct response wins). -/
+theorem single_reply_partial (c : Cfg) (ha : answeredIn (trace c)) (hnt : ¬ terminatedIn (trace c))
+    (hno : c.env.oneway = false) (hex : (final c).exhausted = false) :
+    ∃ r code, replyOf (recvVerdicts (trace c)) (none, none) = (some r, code) ∧
+      backPart (trace c) = .spass 0 (sendRun c.send 0) :: replyEvs r code := by
+  exact single_reply_of c (final c) (run_Ginv c fuel init (init_Ginv c)) (final_halted c) ha hnt hno hex
+
+/-! ### non-vacuity: concrete chains (the repaired defect, a re-match that resumes, a forwarded request) -/
+
+def envOK : Env := { route := fun _ => .found, host := fun _ => true, poolFail := false, up := .resp 200 true false }
+
+/-- filter 0 answers 403 and lets the chain continue, filter 1 (same phase) asks for re-match-route: DESIGN.md §6 #13 -/
+def exDeny : Cfg :=
+  { recv := [⟨.AfterRoute, [⟨.hijack 403 false, .Continue⟩]⟩, ⟨.AfterRoute, [⟨.none, .ReMatchRoute⟩, ⟨.none, .Continue⟩]⟩],
+    send := [⟨[]⟩, ⟨[.Continue]⟩], env := envOK }
+
+theorem exDeny_trace : trace exDeny =
+    [.rpass .BeforeRoute 0 [],
+     .rpass .AfterRoute 0 [(0, ⟨.hijack 403 false, .Continue⟩), (1, ⟨.none, .ReMatchRoute⟩)],
+     .spass 0 [(0, .Continue), (1, .Continue)], .dh (some 403) true] := by decide +kernel
+
+-- hypotheses of deny_not_forwarded / single_reply_partial are satisfiable, and their conclusions are what one expects
+example : Ev.rpass .AfterRoute 0 [(0, ⟨.hijack 403 false, .Continue⟩), (1, ⟨.none, .ReMatchRoute⟩)] ∈ trace exDeny ∧
+    (⟨.hijack 403 false, .Continue⟩ : Verdict).isDeny = true := by rw [exDeny_trace]; decide
+example : answeredIn (trace exDeny) ∧ ¬ terminatedIn (trace exDeny) ∧ exDeny.env.oneway = false ∧
+    (final exDeny).exhausted = false := by
+  refine ⟨?_, ?_, rfl, by decide +kernel⟩
+  · rw [exDeny_trace]; exact ⟨⟨.hijack 403 false, .Continue⟩, by simp [recvVerdicts], rfl⟩
+  · rw [exDeny_trace]; simp [terminatedIn, recvVerdicts]
+example : backPart (trace exDeny) = .spass 0 (sendRun exDeny.send 0) :: replyEvs ⟨false, false⟩ (some 403) := by
+  rw [exDeny_trace]; decide
+
+/-- a re-match that is honoured: filter 1 asks once, the next AfterRoute pass starts at filter 1 (filter 0 is not re-run),
+then the request is forwarded and the upstream response (headers + data) is relayed after the sender filters -/
+def exResume : Cfg :=
+  { recv := [⟨.AfterRoute, []⟩, ⟨.AfterRoute, [⟨.none, .ReMatchRoute⟩, ⟨.none, .Continue⟩]⟩, ⟨.AfterChooseHost, []⟩],
+    send := [⟨[]⟩], env := envOK }
+
+example : trace exResume =
+    [.rpass .BeforeRoute 0 [],
+     .rpass .AfterRoute 0 [(0, {}), (1, ⟨.none, .ReMatchRoute⟩)],
+     .rpass .AfterRoute 1 [(1, {})],
+     .rpass .AfterChooseHost 0 [(2, {})],
+     .up false, .spass 0 [(0, .Continue)], .dh (some 200) false, .dd true] := by decide +kernel
+
+/-- **negation witness of the unrestricted single_reply** (finding): a filter that asks nine times for re-match and
+then answers 403 is invoked ten times; the tenth call of `receive` returns `UpFilter` to a task loop that has run out of
+iterations: the stream is answered by nobody and never cleaned. -/
+def exExhaust : Cfg :=
+  { recv := [⟨.AfterRoute, List.replicate 9 ⟨.none, .ReMatchRoute⟩ ++ [⟨.hijack 403 false, .Stop⟩]⟩],
+    send := [⟨[]⟩], env := envOK }
+
+example : (final exExhaust).exhausted = true ∧ (final exExhaust).cleaned = false ∧
+    backPart (trace exExhaust) = [] ∧ (recvVerdicts (trace exExhaust)).length = 10 ∧
+    (⟨.hijack 403 false, .Stop⟩ : Verdict) ∈ recvVerdicts (trace exExhaust) := by decide +kernel
+
+example : ¬ (∀ c : Cfg, answeredIn (trace c) → ¬ terminatedIn (trace c) → c.env.oneway = false →
+    ∃ r code, backPart (trace c) = .spass 0 (sendRun c.send 0) :: replyEvs r code) := by
+  intro h
+  have hb : backPart (trace exExhaust) = [] := by decide +kernel
+  have ha : answeredIn (trace exExhaust) :=
+    ⟨⟨.hijack 403 false, .Stop⟩, by decide +kernel, rfl⟩
+  have hrv : recvVerdicts (trace exExhaust) = List.replicate 9 ⟨.none, .ReMatchRoute⟩ ++ [⟨.hijack 403 false, .Stop⟩] := by
+    decide +kernel
+  have hsp : ∀ e ∈ trace exExhaust, isSpass e = false := by decide +kernel
+  have hnt : ¬ terminatedIn (trace exExhaust) := by
+    rintro (⟨v, hv, ht⟩ | ⟨st, invs, hm, _⟩)
+    · rw [hrv] at hv; simp at hv; rcases hv with ⟨_, rfl⟩ | rfl <;> cases ht
+    · have := hsp _ hm; cases this
+  obtain ⟨r, code, hx⟩ := h exExhaust ha hnt rfl
+  rw [hb] at hx; cases hx
 
 end MosnVerif.Props.C14
